@@ -178,6 +178,8 @@ func errTag(err error) string {
 		return "corrupt"
 	case strings.Contains(err.Error(), "too long"):
 		return "long"
+	case strings.Contains(err.Error(), "name empty"):
+		return "empty"
 	default:
 		return "fail"
 	}
@@ -215,6 +217,10 @@ func (s *session) pickName() string {
 	if rnd.Chance(3) {
 		out.Note("op-name-too-long")
 		return fmtgen.NameOfLen(rnd, 4097+rnd.Intn(3))
+	}
+	if rnd.Chance(2) {
+		out.Note("op-name-empty")
+		return ""
 	}
 	return fmtgen.Name(rnd)
 }
